@@ -300,3 +300,11 @@ mod tests {
         assert_eq!(q.active_seq(), 0);
     }
 }
+
+#[cfg(feature = "quinn_rs_quinn_verif")]
+impl CidQueue {
+    /// (buffer, cursor, offset) for the verification executor
+    pub(crate) fn verif_state(&self) -> (Vec<Option<CidData>>, usize, u64) {
+        (self.buffer.to_vec(), self.cursor, self.offset)
+    }
+}
